@@ -141,6 +141,11 @@ def jobs(tier, seed):
             add("L", [0, 1, 2], [0, 0, 0], _axes_sym(3, axes), f"|sym-axes={axes}")
         add("T", [0, 1, 2, 3], [0, 0, 0, 0], _axes_sym(4, [0]), "|sym-axes=[0]")
         add("T", [0, 2, 1, 3], [0, 0, 0, 0], _axes_sym(4, [1]), "|sym-axes=[1]")
+        # five blocks, chops fixed, only the iteration orders of the neighbour sets left to the solver: the two unchopped
+        # blocks (1 and 3) are inserted last and are enclosed by graded blocks in the x direction
+        spec5 = {f"{i},{ax}": ("fix" if i in (0, 2, 4) or (i == 3 and ax == 1) else "no") for i in range(5) for ax in range(3)}
+        add("cross5", [2, 0, 4, 1, 3], [0] * 5, spec5, "|schedules only")
+        add("cross5", [0, 2, 4, 3, 1], [0] * 5, spec5, "|schedules only")
         # two blocks that touch along one edge only, numbered so that the shared edge starts at local corner 0 of both
         for r0 in _edge_first_rotations()[::2]:
             add("diag-edge", [0, 1], [r0, 0], _all_sym(2), "|shared edge is the first wire of its axis in both blocks")
